@@ -828,7 +828,7 @@ func handle(req N) (resp N) {
 		resp["back"] = goTree(dst.Elem().Field(0))
 		return resp
 
-	case "global", "field_read", "field_write":
+	case "global", "field_read", "field_write", "nested_write":
 		rt, err := rtype(chain)
 		if err != nil {
 			return bad(err)
@@ -876,6 +876,29 @@ func handle(req N) (resp N) {
 			resp["script"] = scriptTree(res, 12)
 			phase = "back"
 			convertBack(rt, res, resp)
+		case "nested_write":
+			// the field F is itself a struct: write its inner field through the outer proxy
+			inner := map[string]string{"s1": "A", "s2": "B"}[chain[0]]
+			if inner == "" {
+				return bad(fmt.Errorf("nested_write needs a struct-valued field"))
+			}
+			ht := reflect.StructOf([]reflect.StructField{{Name: "F", Type: rt}})
+			src, dst := reflect.New(ht), reflect.New(ht)
+			src.Elem().Field(0).Set(v)
+			if ov, err := build(rt, chain, expand(chain), 0, otherClass(cls)); err == nil {
+				dst.Elem().Field(0).Set(ov)
+			}
+			phase = "eval"
+			res, err := evalWith("dst.F."+inner+" = src.F."+inner+"\ndst.F", map[string]any{"src": src.Interface(), "dst": dst.Interface()})
+			if err != nil {
+				return fail(err)
+			}
+			phase = "project"
+			resp["k"] = "ok"
+			resp["script"] = scriptTree(res, 12)
+			resp["back_k"] = "ok"
+			resp["back"] = goTree(dst.Elem().Field(0))
+			resp["typeok"] = true
 		case "field_write":
 			ht := reflect.StructOf([]reflect.StructField{{Name: "F", Type: rt}})
 			src, dst := reflect.New(ht), reflect.New(ht)
